@@ -33,6 +33,9 @@ type topo struct {
 
 var topoKinds = []string{"chan", "ws", "http"}
 
+// topoHTTPServerOpts: options for the server node's GoatOverHttp of the next "http" topology.
+var topoHTTPServerOpts []goat.GoatOverHttpOption
+
 func newTopo(kind string, dopts []goat.DialOption, sopts []goat.ServerOption) (*topo, error) {
 	impl := &Impl{}
 	srv := goat.NewServer("srv", sopts...)
@@ -74,7 +77,7 @@ func newTopo(kind string, dopts []goat.DialOption, sopts []goat.ServerOption) (*
 		}
 	case "http":
 		var addrA, addrB string
-		gohB := goat.NewGoatOverHttp(func(id string, rw goat.RpcReadWriter) { serve(rw) }, func(src string) (string, error) { return src, nil })
+		gohB := goat.NewGoatOverHttp(func(id string, rw goat.RpcReadWriter) { serve(rw) }, func(src string) (string, error) { return src, nil }, topoHTTPServerOpts...)
 		tsB := httptest.NewServer(http.HandlerFunc(gohB.ServeHTTP))
 		addrB = strings.TrimPrefix(tsB.URL, "http://")
 		gohA := goat.NewGoatOverHttp(func(string, goat.RpcReadWriter) {}, func(src string) (string, error) {
